@@ -367,6 +367,12 @@ func runC04(c *Ctx) {
 
 	// ---------- R-reply-const ----------
 	R.Rule("R-reply-const", "E8 constant table", "every constant reply code is in 200..599 and its constant enhanced code has the class of the reply code; replies without enhanced code only for greeting, EHLO list, 334, 354", 60)
+	inGreetScope := map[*ssa.Function]bool{}
+	if g0 := c.A.Func("(*Conn).handleGreet"); g0 != nil {
+		for _, g := range c.withHelpers(g0) {
+			inGreetScope[g] = true
+		}
+	}
 	for _, f := range c.P.AllFuncs() {
 		allInstrs(f, func(in ssa.Instruction) {
 			fn, code, isConst, ok := replyCall(in)
@@ -391,7 +397,7 @@ func runC04(c *Ctx) {
 			case kind == "const":
 				R.Ob(key, c.P.InstrPos(in), class == code/100, fmt.Sprintf("reply %d carries enhanced code class %d", code, class))
 			case kind == "none":
-				okNone := code == 220 && funcName(f) == "(*Conn).greet" || code == 334 || code == 354 || (code == 250 && funcName(f) == "(*Conn).handleGreet")
+				okNone := code == 220 && funcName(f) == "(*Conn).greet" || code == 334 || code == 354 || (code == 250 && inGreetScope[f])
 				R.Ob(key, c.P.InstrPos(in), okNone && fn == "(*Conn).writeResponse", fmt.Sprintf("reply %d in %s is sent without an enhanced status code", code, funcName(f)))
 			case kind == "notset":
 				R.Ob(key, c.P.InstrPos(in), code/100 == 2 || code/100 == 4 || code/100 == 5, fmt.Sprintf("reply %d relies on enhanced-code defaulting, which exists only for classes 2, 4, 5", code))
